@@ -237,6 +237,8 @@ path:                 /* at this point, p must point to an absolute path */
   if (!len)
     goto end;
 
+  /* a query may follow the authority directly (RFC 3986 path-abempty) */
+  p = q;
   if (*q == '/') {
     p = ++q;
     --len;
